@@ -320,6 +320,11 @@ class HistoryRun:
             with open(p, "wb") as f:
                 f.write(data)
             changed.append(rel)
+        for rel, target in sorted(self.w.corpus.get("symlinks", {}).items()):
+            p = os.path.join(ws, rel)
+            if not os.path.lexists(p):
+                os.makedirs(os.path.dirname(p), exist_ok=True)
+                os.symlink(target, p)
         return changed
 
     def _touch_sources(self, proj):
